@@ -129,8 +129,9 @@ pub fn teardown_oracle(case: &Case, run: &RunResult, fault: usize, b_knows: bool
             _ => {}
         }
     }
-    // reads: prefix consistency
+    // reads: prefix consistency, and everything that reached the endpoint is readable before EOF
     a.integrity()?;
+    a.end_of_stream().or_else(|(sig, msg)| if sig == "c05-delivered-data-lost" { Err((format!("c08-{sig}:{name}"), format!("fault {name}: {msg}"))) } else { Ok(()) })?;
     // 4. local drop on a healthy link: everything queued before is transmitted, in order, before Close
     if fault == 8 {
         let sent: Vec<&WMsg> = run.events.iter().filter_map(|e| if let Ev::Sent { side: 0, msg, lost } = &e.ev { if *lost { None } else { Some(msg) } } else { None }).collect();
